@@ -775,6 +775,15 @@ def h_prod(I, a, k, st, n):
     return X.var("prod#" + tag)
 
 
+def h_slice(I, a, k, st, n):
+    """builtins.slice(stop) / slice(start, stop[, step]) -> the same value a literal a:b:c subscript evaluates to."""
+    if len(a) == 1: return ("slice", None, a[0], None)
+    if len(a) == 2: return ("slice", a[0], a[1], None)
+    if len(a) == 3: return ("slice", a[0], a[1], a[2])
+    return Opaque("slice()")
+
+
+_reg("builtins.slice", h_slice)
 _reg("numpy.prod", h_prod)
 _reg("numpy.interp", h_interp)
 _reg("numpy.flatnonzero", h_flatnonzero)
